@@ -622,6 +622,29 @@ pub fn gen_items(cfg: &Cfg, st: &mut Station, r: &mut Rng) -> Vec<Item> {
             items.insert(pos, it);
         }
     }
+    if cfg.huge {
+        // bulk garbage: one or two blocks of more than 64 KiB in front of later frames, so that the
+        // position of a frame *inside one scanned buffer* exceeds 65535 as well
+        let mut hr = r.fork("bulk");
+        for _ in 0..hr.range(1, 2) {
+            let n = hr.range(66_000, 80_000) as usize;
+            let bytes = match hr.below(3) {
+                0 => vec![0u8; n],
+                1 => hr.bytes(n),
+                _ => {
+                    let mut v = Vec::with_capacity(n + 100);
+                    while v.len() < n {
+                        v.extend_from_slice(&nmea(&mut hr));
+                    }
+                    v
+                }
+            };
+            let mut it = Item::new("noise:bulk".to_string(), "noise", bytes, false);
+            let pos = hr.usize_below(items.len() + 1);
+            it.epoch = if pos < items.len() { items[pos].epoch } else { epoch };
+            items.insert(pos, it);
+        }
+    }
     if cfg.tail_long_header {
         let mut it = Item::new("noise:long_header".into(), "noise", vec![0xD3, 0x03, 0xFF], false);
         it.epoch = epoch;
